@@ -1816,7 +1816,7 @@ fn gen_f_ext(rng: &mut Rng) -> String {
     let features: Vec<(u32, Vec<u16>)> = (0..n).map(|i| (t4(FT[i]), vec![i as u16])).collect();
     let all: Vec<u16> = (0..n as u16).collect();
     let latn = Script { tag: t4("latn"), default: Some(all.clone()), langs: vec![] };
-    let stride = *rng.pick(&[65536u32, 65536, 65536, 131072, 196608, 65534, 65538, 32768, 256, 4096]);
+    let stride = *rng.pick(&[65536u32, 65536, 65536, 131072, 196608, 65534, 65538, 32768, 256, 4096, 16, 12]);
     let g = GsubSpec { features, scripts: vec![latn], fv: None, nlookups: n as u16, naxes: 0, ext: Some(stride) };
     let text = "61.62.63.64.65.66.67.68";
     let shape = |rng: &mut Rng| {
